@@ -37,12 +37,16 @@ def gen_groups(rs, d):
         # listings that LOOK like a contiguous run when only their ends are inspected (last - first == len - 1, or
         # max - min == len - 1 fails but the ends are close) although the members are scattered
         pats = [[[1, 0, 3]], [[0, 3, 2]], [[2, 0, 1, 3][:3]], [[1, 3, 2, 0][:3], [0]]]
+        # as many groups as features although some groups hold several features (the others are empty)
+        pats += [[[0, 1], [], [2], [3]][:d], [[0, 1], [2, 3], [], []]]
+        if d == 5:
+            pats += [[[0, 1], [2], [3, 4], [], []]]
         if d >= 6:
-            pats += [[[0, 5, 2]], [[4, 1, 5]], [[2, 5, 0, 3]], [[0, 5, 2], [1, 3]]]
+            pats += [[[0, 5, 2]], [[4, 1, 5]], [[2, 5, 0, 3]], [[0, 5, 2], [1, 3]], [[0, 1], [2], [3, 4], [5], [], []], [[0, 1], [], [], [3, 4]]]
         g = pats[rs.randint(len(pats))]
         flat = [i for grp in g for i in grp]
         if len(set(flat)) == len(flat) and max(flat) < d:
-            return [list(map(int, grp)) for grp in g], "partial-scattered"
+            return [list(map(int, grp)) for grp in g], ("partial-scattered" if all(len(grp) for grp in g) else "with-empty-groups")
     perm = [int(i) for i in rs.permutation(d)]
     if r < 0.67:
         # partial: one or two groups over a strict subset of the features
